@@ -88,6 +88,17 @@ def body_membership(case):
             X2 = np.asarray(dreye.sample_in_hull(P, n, seed=seed, engine=eng()))
             X3 = np.asarray(dreye.sample_in_hull(P, n, seed=np.random.default_rng(seed), engine=eng()))
             X4 = np.asarray(dreye.sample_in_hull(P, n, seed=np.random.default_rng(seed), engine=eng()))
+    # a whole-number cloud (lattice points 0..9) as int64 array / list of ints gives the samples of the same cloud as floats
+    span0 = float(np.max(P.max(0) - P.min(0))) or 1.0
+    Pi = np.unique(np.round((P - P.min(0)) / span0 * 9.0), axis=0)
+    if Pi.shape[0] > P.shape[1] and np.linalg.matrix_rank(Pi[1:] - Pi[0]) == P.shape[1]:
+        iform = ("int", "intlist")[seed % 2]
+        with calling(f"sample_in_hull(whole-number cloud as {iform}, engine={engine})"):
+            with np.errstate(all="ignore"):
+                Xi = np.asarray(dreye.sample_in_hull(gens.as_form(Pi, iform), n, seed=seed, engine=eng()), dtype=float)
+                Xf = np.asarray(dreye.sample_in_hull(Pi.copy(), n, seed=seed, engine=eng()), dtype=float)
+        check(Xi.shape == Xf.shape and np.all(np.abs(Xi - Xf) <= 1e-9), "sample:integer-cloud-differs",
+              f"cloud {Pi[:4].tolist()}.. given as {iform}: first sample {Xi[:1].tolist()}, given as floats: {Xf[:1].tolist()} (engine {engine})")
     check(np.array_equal(P, P0), "sample:input-modified", "point cloud modified")
     check(X.shape == (n, P.shape[1]), "sample:shape", f"requested {n} samples in {P.shape[1]}-D, got {X.shape} (engine {engine})")
     check(np.all(np.isfinite(X)), "sample:nonfinite", "non-finite samples")
